@@ -23,6 +23,9 @@ Required: the server listens on P_FILE and answers from 3 distinct workers.
 ``loadapp`` from it and never calls it on this path, so an empty stand-in
 module is put on the child's path.)
 """
+import os as _os
+_TREE_UNDER_TEST = _os.environ.get("GVERIF_REPO") or _os.getcwd()   # the checkout under test (was the auditing agent's scratch worktree)
+
 import os
 import signal
 import socket
@@ -32,7 +35,7 @@ import tempfile
 import textwrap
 import time
 
-ROOT = "/tmp/wa_C16"
+ROOT = _TREE_UNDER_TEST
 sys.path.insert(0, ROOT)
 
 
